@@ -248,23 +248,68 @@ def run_batch(specs, runner):
 
 # ----------------------------------------------------------------------------- ParallelTemperingOptimizer (GFO.Model.Population)
 
-def run_pt_scenario(spec):
-    assert spec["opt"] == "ParallelTemperingOptimizer"
+POP = {"ParallelTemperingOptimizer": ("pt", "systems"), "ParticleSwarmOptimizer": ("pso", "particles"),
+       "SpiralOptimization": ("spiral", "particles")}
+
+
+class _NpProxy:
+    """stands in for the name `np` of one module: `clip` is recorded, everything else is numpy's"""
+
+    def __init__(self, tape):
+        self._tape = tape
+
+    def __getattr__(self, name):
+        return getattr(np, name)
+
+    def clip(self, a, lo, hi, *args, **kw):
+        arr = np.asarray(a)
+        if arr.dtype.kind == "f":
+            self._tape.add("s", " ".join(tok_f(x) for x in arr.ravel()))
+        return np.clip(a, lo, hi, *args, **kw)
+
+
+def run_pop_scenario(spec):
+    kind, attr = POP[spec["opt"]]
     tape = Tape()
     holder = {}
 
     def on_built(opt):
-        holder["inits"] = [[[int(x) for x in p] for p in m.init.init_positions_l] for m in opt.systems]
-        for m in opt.systems:
+        members = getattr(opt, attr)
+        holder["inits"] = [[[int(x) for x in p] for p in m.init.init_positions_l] for m in members]
+        for m in members:
             instance_patches(m, tape)
-    with module_patches(tape):
-        out = scen.run_scenario(spec, with_model=False, on_built=on_built)
+            if kind == "pso":
+                orig_mp = m._move_part
+
+                def move_part(pos, velo, _orig=orig_mp):
+                    tape.add("p", _ipos(pos) + " " + " ".join(tok_f(x) for x in np.asarray(velo, dtype=float).ravel()))
+                    return _orig(pos, velo)
+                m._move_part = move_part
+        if kind in ("pso", "spiral"):
+            orig_nic = opt.conv.not_in_constraint
+
+            def not_in_constraint(pos):
+                ok = orig_nic(pos)
+                tape.add("f", _ipos(pos) + (" 1" if ok else " 0"))
+                return ok
+            opt.conv.not_in_constraint = not_in_constraint
+    import gradient_free_optimizers.optimizers.pop_opt._spiral as spm
+    saved_np = spm.np
+    if kind == "spiral":
+        spm.np = _NpProxy(tape)
+    try:
+        with module_patches(tape):
+            out = scen.run_scenario(spec, with_model=False, on_built=on_built)
+    finally:
+        spm.np = saved_np
     real = out["real"]
     opt, rec, records, space = real["opt"], real["rec"], real["records"], real["space"]
-    m0 = opt.systems[0]
+    members = getattr(opt, attr)
+    m0 = members[0]
     inits = holder["inits"]
-    pnew = (f"pnew {opt.init.n_inits} {int(m0.n_neighbours)} {tok_rat(opt.rand_rest_p)} {int(opt.n_iter_swap)} {len(inits)} " +
-            " ".join(f"{len(l)} " + " ".join(" ".join(str(x) for x in p) for p in l) for l in inits)).rstrip()
+    n_swap = int(getattr(opt, "n_iter_swap", 1))
+    pnew = (f"pnew {kind} {opt.init.n_inits} {int(m0.n_neighbours)} {tok_rat(opt.rand_rest_p)} {n_swap} {len(inits)} " +
+            " ".join(f"{len(l)} " + " ".join(" ".join(str(x) for x in p) for p in l) for l in inits))
     pnew = " ".join(pnew.split())
     f = real["f"]
     lines, expect = drv.encode_history(space, opt.init.n_inits, opt, rec, records, (lambda k, para: f(para)),
@@ -273,11 +318,16 @@ def run_pt_scenario(spec):
     if not raised:
         lines.append("pstate")
         expect.append("outer " + tracker_core(opt))
-        for m in opt.systems:
+        for m in members:
             expect.append("member " + tracker_core(m))
-        cur = opt.systems.index(opt.p_current) if getattr(opt, "p_current", None) is not None else 0
+        pc = getattr(opt, "p_current", None)
+        cur = [i for i, m in enumerate(members) if m is pc][0] if pc is not None else 0
         expect.append(f"pop cur={cur} tapeLeft=0")
     out.update(lines=lines, expect=expect)
     out["tape_kinds"] = dict(tape.kinds)
     out["tape_len"] = len(tape.lines)
     return out
+
+
+def run_pt_scenario(spec):
+    return run_pop_scenario(spec)
